@@ -46,6 +46,7 @@ let props_of_sx x = match x with
   | _ -> failwith ("props " ^ Sexp.to_string x)
 let canon_props x = sx_props (props_of_sx x)
 
+exception Unsupported_pkt of string
 let pkt_of_sx x : pkt = match Sexp.list x with
   | [Sexp.A "connack"; sp; code; ps] -> KConnack (bool_of_sx sp, n_of_sx code, props_of_sx ps)
   | [Sexp.A "publish"; d; q; r; t; p; pid; ps] ->
@@ -67,6 +68,8 @@ let pkt_of_sx x : pkt = match Sexp.list x with
   | [Sexp.A "pingresp"] -> KPingresp
   | [Sexp.A "disconnect"; c; ps] -> KDisconnect (n_of_sx c, props_of_sx ps)
   | [Sexp.A "auth"; c; ps] -> KAuth (n_of_sx c, props_of_sx ps)
+  | Sexp.A "raw" :: _ -> raise (Unsupported_pkt "raw")
+  | Sexp.A "connect" :: _ -> raise (Unsupported_pkt "connect_in_send")
   | _ -> failwith ("pkt " ^ Sexp.to_string x)
 
 let sx_pkt (p : pkt) : Sexp.t = match p with
@@ -87,7 +90,7 @@ let sx_pkt (p : pkt) : Sexp.t = match p with
   | KUnsubscribe _ -> Sexp.L [Sexp.A "unsubscribe"]
 
 (* re-print an implementation packet canonically (properties sorted) *)
-let canon_pkt x = try sx_pkt (pkt_of_sx x) with _ -> x
+let canon_pkt x = try sx_pkt (pkt_of_sx x) with Failure _ | Unsupported_pkt _ -> x
 
 let field_n k x d = match Sexp.field_opt k x with Some [v] -> n_of_sx v | _ -> d
 let field_b k x d = match Sexp.field_opt k x with Some [v] -> bool_of_sx v | _ -> d
@@ -200,11 +203,14 @@ let model_step_obs (s_after : st) (outs : out list) : (int * Sexp.t list * bool)
       let pk = List.filter_map (fun o -> match o with OSend (c', p) when int_of_n c' = c -> Some (sx_pkt p) | _ -> None) outs in
       (c, pk, conn_open s_after c)) (List.sort compare (conn_ids s_after))
 
+(* the take-over DISCONNECT (0x8E) races with the close of the old socket and is normally lost: not compared *)
+let not_takeover x = match x with Sexp.L [Sexp.A "disconnect"; Sexp.A "142"; _] -> false | _ -> true
+
 let impl_step_obs (step_obs : Sexp.t) : (int * Sexp.t list * bool) list =
   let entries = match step_obs with Sexp.L (Sexp.A "s" :: es) -> es | _ -> failwith "step obs" in
   List.sort compare (List.filter_map (fun e -> match e with
       | Sexp.L [c; Sexp.L (Sexp.A "pkts" :: ps); Sexp.L [Sexp.A "open"; o]] when (match c with Sexp.A a -> a <> "sent" && a <> "inspect" | _ -> false) ->
-        Some (int_of_sx c, List.map canon_pkt ps, bool_of_sx o)
+        Some (int_of_sx c, List.filter not_takeover (List.map canon_pkt ps), bool_of_sx o)
       | _ -> None) entries)
 
 (* copies of one application message queued for one client by a single delivery come in map
@@ -248,7 +254,14 @@ let sx_steps steps =
 
 type oracle_fn = cfg -> hooks -> Sexp.t list (* scenario steps *) -> (int * Sexp.t list * bool) list list (* impl obs *) -> Sexp.t list (* raw impl steps *) -> bool * string
 
-let run_with (oracle : oracle_fn) (input : Sexp.t) (impl : Sexp.t) : Verdict.t =
+exception Unsupported of string
+
+let rec run_with (oracle : oracle_fn) (input : Sexp.t) (impl : Sexp.t) : Verdict.t =
+  try run_with' oracle input impl
+  with Unsupported what ->
+    { Verdict.agree = true; oracle = true; kf = "-"; nontrivial = false; cls = "unsupported_" ^ what; model = Sexp.A "unsupported" }
+
+and run_with' (oracle : oracle_fn) (input : Sexp.t) (impl : Sexp.t) : Verdict.t =
   let cfg = cfg_of_sx (Sexp.L (Sexp.field "cfg" input)) in
   let hooks = hooks_of_sx (match Sexp.field_opt "hooks" input with Some h -> Some (Sexp.L h) | None -> None) in
   let steps = Sexp.field "steps" input in
@@ -258,9 +271,9 @@ let run_with (oracle : oracle_fn) (input : Sexp.t) (impl : Sexp.t) : Verdict.t =
   let picks = match Sexp.field_opt "picks" input with Some l -> List.map nat_of_sx l | None -> [] in
   let s0 = st_init cfg hooks picks in
   let (_, mobs_rev) = List.fold_left2 (fun (s, acc) step so ->
-      match event_of_sx step so with
+      match (try event_of_sx step so with Unsupported_pkt w -> raise (Unsupported w)) with
       | None -> (s, model_step_obs s [] :: acc)
-      | Some e -> let (s', outs) = step_ s e in (s', model_step_obs s' outs :: acc)) (s0, []) steps isteps in
+      | Some e -> let (s', outs) = Model.step s e in (s', model_step_obs s' outs :: acc)) (s0, []) steps isteps in
   let mobs = rename_pids (List.rev mobs_rev) in
   let iobs = rename_pids (List.map impl_step_obs isteps) in
   let agree = (mobs = iobs) in
@@ -268,7 +281,14 @@ let run_with (oracle : oracle_fn) (input : Sexp.t) (impl : Sexp.t) : Verdict.t =
   let npub = List.length (List.filter (fun st -> List.exists (fun (_, pk, _) -> List.exists (fun p -> key_tp p <> None) pk) st) iobs) in
   { Verdict.agree; oracle = ok; kf; nontrivial = npub >= 1 && n >= 5;
     cls = Printf.sprintf "steps%s_pub%s" (if n < 12 then "lt12" else "ge12") (if npub = 0 then "0" else if npub < 4 then "lt4" else "ge4");
-    model = (if agree then Sexp.A "same" else sx_steps mobs) }
+    model = (if agree then Sexp.A "same" else
+               let rec first k a b = match a, b with
+                 | x :: a', y :: b' -> if x = y then first (k + 1) a' b' else Some (k, [x], [y])
+                 | [], [] -> None
+                 | _, _ -> Some (k, [], []) in
+               match first 0 iobs mobs with
+               | Some (k, i, m) -> Sexp.L [Sexp.A "first_diff_step"; sx_int k; Sexp.L [Sexp.A "impl"; sx_steps i]; Sexp.L [Sexp.A "model"; sx_steps m]]
+               | None -> Sexp.A "lengths") }
 
 let no_oracle : oracle_fn = fun _ _ _ _ _ -> (true, "-")
 let run = run_with no_oracle
